@@ -57,7 +57,7 @@ CLAIMED = {
         "DESIGN.md 3 C08",
     ),
     "C09": (
-        "Hypothesis-generated workload/cluster files run by two fresh main.py processes with different PYTHONHASHSEED and directories; differential comparison of the CSV traces",
+        "Hypothesis-generated workload/cluster files run by two fresh main.py processes with different PYTHONHASHSEED and directories (incl. --replication_factor, --log_file_mode); differential comparison of the CSV traces; sampling release policies built through the API and asked 1-3 times in two fresh processes",
         "Differential oracle over real process pairs: identical traces up to the masked wall-clock fields for every generated workload using randomness. Exploration.",
         "Deterministic policies with scheduler runtime 0; same interpreter and machine for both runs.",
         "DESIGN.md 3 C09",
@@ -75,7 +75,7 @@ CLAIMED = {
         "DESIGN.md 3 C11",
     ),
     "C12": (
-        "Hypothesis-generated boundary-deadline scheduler inputs for every enforcing policy; returned plans plus up to 200 feasible points of the captured Gurobi models (solution-pool enumeration decoded through the scheduler's own variables); generated end-to-end planner runs",
+        "Hypothesis-generated boundary-deadline scheduler inputs for every enforcing policy (incl. TetriSched-CPLEX batching mode with per-member deadlines); returned plans plus up to 200 feasible points of the captured Gurobi models (solution-pool enumeration decoded through the scheduler's own variables); generated end-to-end planner runs",
         "Admission predicate (hopeless => cancel / unplaced, never placed; feasible => not cancelled), start+runtime <= deadline on the returned plan and on enumerated feasible points of the ILP / TetriSched-Gurobi models, completion <= deadline in planner runs with exact runtimes. Exploration; the feasible set is sampled, not exhausted.",
         "Licence-limited model sizes; ILP in task-by-task mode; integer start variables are capped for enumeration (sampling restriction only).",
         "DESIGN.md 3 C12",
@@ -87,13 +87,13 @@ CLAIMED = {
         "DESIGN.md 3 C13",
     ),
     "C14": (
-        "Hypothesis-generated small instances; differential against the harness's own DFS enumeration of the planner's documented decision space (ILP: brute-force maximum of rewarded graphs; TetriSched: maximality of the returned plan)",
+        "Hypothesis-generated small instances; differential against the harness's own DFS enumeration of the planner's documented decision space (ILP: brute-force maximum of rewarded graphs, also over retractable earlier plans with retract_schedules; TetriSched: maximality of the returned plan)",
         "Reference brute-force optimum / maximality predicate over the complete decision space of each generated instance inside the enumeration bound (<= 4 offered tasks, <= 2 workers, <= 2 strategies, horizon <= 12 slots). Exploration over instances, exhaustive within each instance.",
         "Time models taken from the planners' documentation/verify_schedule conventions (ILP closed intervals and +1 precedence, TetriSched half-open windows on the slot grid); licence-limited sizes; brute-force truncation discards the case.",
         "DESIGN.md 3 C14",
     ),
     "C15": (
-        "model-based operation histories (Hypothesis op-lists: submit / advance / load / evict / schedule+apply) against the real ClockworkScheduler, judged by a shadow ledger and a request history",
+        "model-based operation histories (Hypothesis op-lists: submit / advance / load with drawn load times / evict / schedule+apply) against the real ClockworkScheduler, judged by a shadow ledger and a request history",
         "Stateful exploration: every batch returned in every invocation of generated histories is checked for one model, full size, loaded model, capacity per shadow ledger, on-time completion, at-most-once placement and cancel-iff-hopeless. Exploration of short histories.",
         "Start-up loading performed by the harness through scheduler.start(); a quarter of the histories run with scheduler_run_load.",
         "DESIGN.md 3 C15",
@@ -110,7 +110,7 @@ CLAIMED = {
     ),
     "C17": (
         "exhaustive enumeration of all labelled DAGs (<=5 nodes quick, 6 nodes thorough) plus Hypothesis random "
-        "DAGs/cyclic digraphs/TaskGraph+JobGraph instances against brute-force path enumeration, and model-based mutation histories (add_node/add_child/remove interleaved with queries) on one Graph object",
+        "DAGs/cyclic digraphs/TaskGraph+JobGraph instances against brute-force path enumeration, and model-based mutation histories (add_node/add_child/remove/refused add_child interleaved with queries) on one Graph object",
         "Every labelled DAG up to the bound is enumerated and each graph algorithm is compared with an "
         "independent reference (transitive closure, brute-force source-sink path enumeration, own DP); "
         "exhaustive within the bound, sampled above it.",
